@@ -48,7 +48,7 @@ inline std::string cmp_view(Theo::VM &vm, size_t k, const ref::FrameView &rf) {
   if (vm.code.stack_maps[mi].func_name != rf.routine) return "activation " + std::to_string(k) + " is '" + vm.code.stack_maps[mi].func_name + "', expected '" + rf.routine + "'";
   auto view = real::user_view(acts[k]);
   for (auto &p : rf.vars) {
-    if (p.first.rfind("#", 0) == 0) continue;  // macro temporaries are hidden from the user view
+    if (!real::is_user_name(p.first)) continue;  // macro temporaries are hidden from the user view
     auto it = view.find(p.first);
     if (it == view.end()) return "variable " + p.first + " of " + rf.routine + " missing from the view (expected " + std::to_string(p.second) + ")";
     if (it->second != p.second) return "variable " + p.first + " of " + rf.routine + " = " + std::to_string(it->second) + ", expected " + std::to_string(p.second);
